@@ -321,8 +321,8 @@ hawk_oow_t hawk_arr_insert (hawk_arr_t* arr, hawk_oow_t pos, void* dptr, hawk_oo
 			else
 			{
 				hawk_oow_t bound = (pos >= arr->size)? pos: arr->size;
-				capa = HAWK_ALIGN_POW2(bound + 1, 64);
-				do { capa = arr->capa * 2; } while (capa <= bound);
+				capa = arr->capa;
+				do { capa *= 2; } while (capa <= bound);
 			}
 		}
 
